@@ -16,7 +16,9 @@ case "$ID" in
     cleanup() { python3 -c "import shutil,sys; shutil.rmtree(sys.argv[1], ignore_errors=True)" "$OV"; }
     trap cleanup EXIT
     built=0
-    (cd instr && flock ../.build/build.lock go build -o ../.build/instr .) >"$LOG" 2>&1
+    if ! (cd instr && flock ../.build/build.lock go build -o ../.build/instr .) >"$LOG" 2>&1; then
+      echo "TOOL-FAILURE property=$ID: the source instrumenter does not build; see $LOG (not a violation)"; head -20 "$LOG"; exit 3
+    fi
     for MODE in full stores sync; do
       mkdir -p "$OV/$MODE"
       if .build/instr -repo /repo -shim "$PWD/shim/vsched" -out "$OV/$MODE" -mode $MODE >>"$LOG" 2>&1 && \
